@@ -15,7 +15,12 @@ Ctors == {<<"Get", "-">>, <<"Delete", "-">>, <<"PostJSON", "-">>, <<"PutJSON", "
 Hdrs == {<< <<"X-A", "1">> >>, << <<"X-A", "1">>, <<"X-B", "2">> >>, <<>>, << <<"Content-Type", "text/plain">>, <<"X-A", "1">> >>}
 Base == [ctor |-> "Get", m |-> "-", tmpl |-> <<L("plain")>>, params |-> <<>>, hdr |-> << <<"X-A", "1">> >>, hdrNil |-> FALSE,
          fault |-> "none", evals |-> 1, body |-> "B"]
+\* values that a path-cleaning step would change: empty, ".", "..", a doubled and a trailing slash - all inserted verbatim
+OddVals == {"", ".", "..", "a//b", "a/"}
+OddMaps == {PairsOf({"a"}, [k \in Keys |-> v]) : v \in OddVals} \cup {PairsOf({"a", "b"}, [k \in Keys |-> IF k = "a" THEN v ELSE "1"]) : v \in OddVals}
+           \cup {PairsOf({"a", "b", "c"}, [k \in Keys |-> IF k = "b" THEN v ELSE "1"]) : v \in OddVals}
 UrlCases == {[Base EXCEPT !.ctor = ct, !.tmpl = t, !.params = pm] : ct \in {"Get", "PostJSON", "PostMultipart"}, t \in Templates, pm \in ParamMaps}
+            \cup {[Base EXCEPT !.ctor = ct, !.tmpl = t, !.params = pm] : ct \in {"Get", "Delete", "PostJSON"}, t \in Templates, pm \in OddMaps}
 CtorCases == {[Base EXCEPT !.ctor = cm[1], !.m = cm[2], !.tmpl = t, !.params = pm, !.hdr = h, !.fault = f, !.evals = n] :
                 cm \in Ctors, t \in {<<L("plain")>>, <<L("u/"), P("a")>>}, pm \in {<<>>, << <<"a", "1">> >>}, h \in Hdrs,
                 f \in {"none", "ser", "transport", "decode", "decodeNilErr"}, n \in 0..2}
